@@ -103,5 +103,30 @@ def main():
         core.SPEC = spec_saved
         shutil.rmtree(d, ignore_errors=True)
     expect("Raster.tla with the span rounding removed violates RefinesCoverage", r.invariant_violated == "RefinesCoverage", str(r.invariant_violated))
+    # mutated CurveEdge.tla (cheap_distance without |dy|) must fail the flattening bound
+    shutil.copytree(core.SPEC, d)
+    p = os.path.join(d, "CurveEdge.tla")
+    s = open(p).read().replace("ay == Abs(dy)", "ay == dy")
+    open(p, "w").write(s)
+    try:
+        core.SPEC = d
+        r = run_tlc("selftest", "MC_CurveEdge", env={"MAXC": 96, "STEP": 16, "OFFS": 0}, workers=12, timeout=900, allow_violation=True)
+    finally:
+        core.SPEC = spec_saved
+        shutil.rmtree(d, ignore_errors=True)
+    expect("CurveEdge.tla with cheap_distance lacking |dy| violates Flat or Tracks", r.invariant_violated in ("Flat", "Tracks"), str(r.invariant_violated))
+    # a recorded curve edge with one x position changed is a DRIFT; the dash output with one vertex moved is a DRIFT
+    from .props import drive, execute, validate, read_ndjson
+    for fam, mod, mut in (("curveedge", "Trace_CurveEdge", lambda rec: rec["res"][0]["xs"].__setitem__(0, rec["res"][0]["xs"][0] + 1)),
+                          ("dashops", "Trace_DashOps", lambda rec: [o.__setitem__(1, o[1] + 64) for o in rec["dash_ops"] if o[0] == "L"])):
+        ds = drive("selftest", fam, 1, 3)
+        tp = execute("selftest", fam, ds)
+        recs = read_ndjson(tp)
+        mut(recs[0])
+        with open(tp, "w") as f:
+            for rec in recs:
+                f.write(json.dumps(rec) + "\n")
+        t = validate("selftest", mod, tp, workers=2, timeout=600)
+        expect("corrupted %s record is reported as DRIFT" % fam, len(t.tuples("DRIFT")) >= 1, str(t.tuples("DRIFT"))[:200])
     print("selftest:", "all demonstrations behaved" if ok else "SOME DEMONSTRATION FAILED")
     return 0 if ok else 2
